@@ -39,6 +39,8 @@ _REF = _re.compile(r"^(?P<base>[A-Za-z_][\w.]*)(?P<op>[*+?])?(?:\[(?P<sep>[\w.]+
 def split_ref(ref):
     """'m.A*[T]' -> ('m.A', '*', 'T'); a named match 'n0=m.A' is the reference 'm.A'"""
     ref = ref.split("=", 1)[-1]
+    if ref.startswith("'"):
+        return ref, "", None          # inline string literal
     m = _REF.match(ref)
     return m.group("base"), m.group("op") or "", m.group("sep")
 
@@ -175,6 +177,7 @@ class Flat:
         seen = []
         rules = []
         terms = {}
+        literals = set()
         while todo:
             s = todo.pop(0)
             if s in seen:
@@ -189,6 +192,11 @@ class Flat:
                 out = []
                 for ref in alt:
                     base, op, sep = split_ref(ref)
+                    if base.startswith("'"):
+                        # an inline literal is a terminal of the grammar as a whole, named by its text
+                        literals.add(base[1:-1])
+                        out.append(ref)
+                        continue
                     r = self.resolve(s[1], base)
                     if r is None:
                         return None
@@ -220,7 +228,8 @@ class Flat:
                 lines.append("terminals")
             lines.append("KEYWORD: /\\w+/;")
             kw = 1
-        return "\n".join(lines) + "\n", len(rules), len(terms) + kw, sorted(set(terms.values()))
+        return "\n".join(lines) + "\n", len(rules), len(terms) + kw + len(literals), \
+            sorted(set(terms.values()) | literals)
 
 
 def d13(flat):
@@ -521,6 +530,13 @@ def cases(draw):
                 out += ["%s.%s" % (alias, r) for r in refs_from(ti, depth + 1)]
         return out
     sugar = draw(st.integers(0, 2)) == 0      # repetition / optional sugar on (qualified) references
+    empty_alts = draw(st.integers(0, 2)) == 0
+    lit_files = [draw(st.booleans()) for _ in files] if draw(st.integers(0, 2)) == 0 else [False] * len(files)
+    if any(lit_files):
+        # terminals U<k> declared in imported files (never in the root, whose names are not qualified)
+        for k, f in enumerate(files[1:], 1):
+            if draw(st.booleans()):
+                f["terms"].append(("U%d" % k, "u%d" % k))
     # named matches in some alternatives of some files (per file: the root may have none while an imported file has)
     named_files = [draw(st.booleans()) for _ in files] if draw(st.integers(0, 2)) == 0 else [False] * len(files)
     for i, f in enumerate(files):
@@ -538,10 +554,20 @@ def cases(draw):
                             if op != "?" and draw(st.integers(0, 2)) == 0:
                                 alt[k] += "[%s]" % draw(st.sampled_from(tn_))
                 alts.append(alt)
+            if lit_files[i]:
+                # some references to this file's own terminals become inline string literals: a fresh text, or
+                # a text that is the *name* of a terminal declared in another file
+                own = {n for n, _ in f["terms"]}
+                pool_l = ["l%s" % "abcdefghij"[(i * 3 + k) % 10] for k in range(2)] + \
+                    [u for u in ("U1", "U2", "U3") if u not in own]
+                alts = [["'%s'" % draw(st.sampled_from(pool_l)) if r in own and draw(st.integers(0, 2)) == 0 else r
+                         for r in alt] for alt in alts]
             if named_files[i]:
                 # named matches (the rule then builds objects through the default obj action)
                 alts = [["n%d=%s" % (k, r) if not r[-1:] in "*+?]" and draw(st.integers(0, 1)) else r
                          for k, r in enumerate(alt)] for alt in alts]
+            if empty_alts and draw(st.integers(0, 3)) == 0:
+                alts.append([])          # an explicit EMPTY alternative
             # keep rules productive: one alternative of terminals only
             tn = [n for n, _ in f["terms"]]
             alts.append([draw(st.sampled_from(tn))])
@@ -559,7 +585,7 @@ def cases(draw):
                 files[fi]["rules"].append((tgt, [[draw(st.sampled_from(tn))], [tn[0], tn[0]]]))
     for f in files:
         del f["rule_names"]
-    return {"files": files, "shape": shape, "sugar": sugar, "named": any(named_files), "kw": draw(st.integers(0, 2)) == 0,
+    return {"files": files, "shape": shape, "sugar": sugar, "named": any(named_files), "literals": any(lit_files), "empty_alts": empty_alts, "kw": draw(st.integers(0, 2)) == 0,
             "max_len": (4 if tcount[0] <= 4 else 3) - (1 if sugar else 0)}
 
 
